@@ -15,12 +15,13 @@ for d in sorted(glob.glob(os.path.join(HERE, "seeded", "*", "meta.json"))):
     ch = m.get("checks", {})
     caught = sorted({k.split(":")[0] for k, v in ch.items() if v.get("exit") == 1 and v.get("violations", 0) > 0})
     n += 1
-    miss += bool(m.get("history"))
+    hist = [h for h in (m.get("history") or []) if not h.startswith(("patch.diff rebased", "since fix"))]
+    miss += bool(hist)
     unrep += not caught
     rep = ", ".join(caught) or "(none, see text)"
     if m.get("superseded_by_fix"):
         rep += f" (before fix {m['superseded_by_fix']}, which makes the change harmless)"
-    lines.append(f"| {name} | {title[:110].replace('|', '/')} | {rep} | {'yes' if m.get('history') else ''} |")
+    lines.append(f"| {name} | {title[:110].replace('|', '/')} | {rep} | {'yes' if hist else ''} |")
 p = os.path.join(HERE, "DESIGN.md")
 s = open(p).read()
 a, b = "<!-- seeded-table-begin -->", "<!-- seeded-table-end -->"
